@@ -208,7 +208,7 @@ def parse_script(text):
             cur.lines.append(ln)
     return cases, None
 
-def shrink_case(c, project, variant='asan', env=None, budget=120):
+def shrink_case(c, project, variant='asan', env=None, budget=120, seconds=40):
     """delta-debugging on the script lines: the smallest prefix-closed subsequence on which implementation and model still disagree
     (or the implementation still reports an anomaly). Used only to make a replay short; never decides anything."""
     def signature(lines):
@@ -234,6 +234,7 @@ def shrink_case(c, project, variant='asan', env=None, budget=120):
         k = next((i for i, (x, y) in enumerate(zip(a, b)) if x != y), min(len(a), len(b)))
         x = a[k] if k < len(a) else (b[k] if k < len(b) else '')
         return ('', str(x).split()[0] if str(x).split() else '')
+    t_end = time.time() + seconds
     orig = signature(list(c.lines))
     def differs(lines):
         # the SAME kind of failure must remain: same anomaly class, or (no anomaly and) the same kind of observation differs
@@ -242,12 +243,14 @@ def shrink_case(c, project, variant='asan', env=None, budget=120):
     if not differs(lines):
         return None
     n = 2
-    while len(lines) >= 2 and budget > 0:
+    while len(lines) >= 2 and budget > 0 and time.time() < t_end:
         chunk = max(1, len(lines) // n)
         removed = False
         for i in range(0, len(lines), chunk):
             cand = lines[:i] + lines[i + chunk:]
             budget -= 1
+            if time.time() >= t_end:
+                break
             if cand and differs(cand):
                 lines = cand; n = max(n - 1, 2); removed = True
                 break
